@@ -145,7 +145,8 @@ def generate(seed, prop):
         ops = [{"op": "read_many", "kwargs_style": style_k, "dfn_style": style_d, "trims": trims,
                 "unwrap_single": rng.random() < 0.5, "bare": rng.random() < 0.3,
                 # reader options that do not name the format (obspy detects it): legal, and every reader sees them
-                "noformat": rng.random() < 0.35}]
+                "noformat": rng.random() < 0.35,
+                "per_rec_as": rng.choice(["list", "list", "list", "tuple", "iter", "gen", "cycle"])}]
     faults = []
     if faulty:
         for _ in range(rng.choice([1, 1, 1, 2])):
@@ -714,8 +715,21 @@ def run_op(ctx, st, op, H):
         for e in entries:
             arm_eio(st, e)
         got, exc = None, None
+        k_arg, d_arg = copy.deepcopy(kwargs), copy.deepcopy(dfn)
+        # the per-recording values are documented as "iterable of ...": lists, tuples, or one-shot iterators (a generator over a
+        # station table, map(), itertools.cycle of two orientations)
+        how = op.get("per_rec_as", "list")
+        if how != "list":
+            import itertools
+            conv = {"tuple": tuple, "iter": iter, "gen": lambda v: (x for x in v),
+                    "cycle": lambda v: itertools.cycle(v)}[how]
+            if isinstance(k_arg, list) and how != "cycle":
+                k_arg = conv(k_arg)
+            if isinstance(d_arg, list) and (how != "cycle" or len(d_arg) == len(entries)):
+                d_arg = conv(d_arg)
+            ctx.probe("per_recording_values_as_" + how)
         try:
-            got = H.read(fnames, obspy_read_kwargs=copy.deepcopy(kwargs), degrees_from_north=copy.deepcopy(dfn))
+            got = H.read(fnames, obspy_read_kwargs=k_arg, degrees_from_north=d_arg)
         except Exception as e:                               # noqa
             exc = e
         finally:
